@@ -6,6 +6,7 @@ pub mod gen;
 pub mod io;
 pub mod mem;
 pub mod props;
+pub mod tls;
 pub mod util;
 
 use engine::{Report, Tier};
@@ -40,6 +41,7 @@ pub fn run_property(id: &str, tier: Tier, replay: Option<(String, Value)>) -> i3
         "C14" => c14,
         "C15" => c15,
         "C16" => c16,
+        "C17" => c17,
         "C18" => c18,
     }
 }
